@@ -1130,6 +1130,21 @@ func ruleWrapperForwards(c *Ctx, rule string) {
 		}
 		c.Check(forwards, rule, FnName(fn), p.Pos(fn.Pos()), "hands the call to the same method of the wrapped context", "does not hand the call to "+fn.Name()+" of the wrapped context: what is registered through a system context made inside the transaction is not seen by the context the database runs")
 	}
+	// methods the wrapper does not declare: promoted from the wrapped context where that is embedded
+	if st != nil && st.NumFields() == 1 && st.Field(0).Embedded() {
+		if it, ok := st.Field(0).Type().Underlying().(*types.Interface); ok {
+			declared := map[string]bool{}
+			for i := 0; i < w.NumMethods(); i++ {
+				declared[w.Method(i).Name()] = true
+			}
+			for i := 0; i < it.NumMethods(); i++ {
+				if m := it.Method(i); !declared[m.Name()] {
+					n++
+					c.OK(rule, "(*boltz.systemMutateContext)."+m.Name()+" (promoted)", p.Pos(w.Obj().Pos()), "promoted from the embedded wrapped context")
+				}
+			}
+		}
+	}
 	c.CallSites(n)
 	c.Floor(rule, 5)
 }
